@@ -44,8 +44,11 @@ func (v *Value) UnmarshalNBT(tagType byte, r nbt.DecoderReader) error {
 		if err != nil {
 			return err
 		}
+		if n < 0 {
+			return errors.New("byte array length less than 0")
+		}
 
-		v.data = append(v.data[:0], make([]byte, 4+n)...)
+		v.data = append(v.data[:0], make([]byte, 4+int(n))...)
 		binary.BigEndian.PutUint32(v.data, uint32(n))
 
 		_, err = io.ReadFull(r, v.data[4:])
@@ -58,8 +61,11 @@ func (v *Value) UnmarshalNBT(tagType byte, r nbt.DecoderReader) error {
 		if err != nil {
 			return err
 		}
+		if n < 0 {
+			return errors.New("string length less than 0")
+		}
 
-		v.data = append(v.data[:0], make([]byte, 2+n)...)
+		v.data = append(v.data[:0], make([]byte, 2+int(n))...)
 		binary.BigEndian.PutUint16(v.data, uint16(n))
 
 		_, err = io.ReadFull(r, v.data[2:])
@@ -76,6 +82,12 @@ func (v *Value) UnmarshalNBT(tagType byte, r nbt.DecoderReader) error {
 		length, err := readInt32(r)
 		if err != nil {
 			return err
+		}
+		if length < 0 {
+			return errors.New("list length less than 0")
+		}
+		if t == nbt.TagEnd && length > 0 {
+			return errors.New("non-empty list of TAG_End")
 		}
 
 		v.list = v.list[:0]
@@ -114,8 +126,11 @@ func (v *Value) UnmarshalNBT(tagType byte, r nbt.DecoderReader) error {
 		if err != nil {
 			return err
 		}
+		if n < 0 {
+			return errors.New("int array length less than 0")
+		}
 
-		v.data = append(v.data[:0], make([]byte, 4+n*4)...)
+		v.data = append(v.data[:0], make([]byte, 4+int(n)*4)...)
 		binary.BigEndian.PutUint32(v.data, uint32(n))
 
 		_, err = io.ReadFull(r, v.data[4:])
@@ -128,14 +143,20 @@ func (v *Value) UnmarshalNBT(tagType byte, r nbt.DecoderReader) error {
 		if err != nil {
 			return err
 		}
+		if n < 0 {
+			return errors.New("long array length less than 0")
+		}
 
-		v.data = append(v.data[:0], make([]byte, 4+n*8)...)
+		v.data = append(v.data[:0], make([]byte, 4+int(n)*8)...)
 		binary.BigEndian.PutUint32(v.data, uint32(n))
 
 		_, err = io.ReadFull(r, v.data[4:])
 		if err != nil {
 			return err
 		}
+
+	default:
+		return fmt.Errorf("unknown Tag %#02x", tagType)
 	}
 	return nil
 }
